@@ -2,6 +2,8 @@ package main
 
 import (
 	"fmt"
+	"go/ast"
+	"os"
 	"go/constant"
 	"go/token"
 	"go/types"
@@ -109,30 +111,7 @@ func analyzeLoops(fn *ssa.Function) (map[*ssa.BasicBlock]*loopInfo, []*ssa.Basic
 	}
 	var list []*loopInfo
 	for _, li := range loops {
-		li.pos = token.NoPos
-		for b := range li.body {
-			for _, in := range b.Instrs {
-				if _, isDbg := in.(*ssa.DebugRef); isDbg {
-					continue
-				}
-				if p := in.Pos(); p.IsValid() && (!li.pos.IsValid() || p < li.pos) {
-					li.pos = p
-				}
-			}
-		}
 		list = append(list, li)
-	}
-	sort.Slice(list, func(i, j int) bool {
-		if list[i].pos != list[j].pos {
-			return list[i].pos < list[j].pos
-		}
-		if len(list[i].body) != len(list[j].body) {
-			return len(list[i].body) > len(list[j].body)
-		}
-		return list[i].header.Index < list[j].header.Index
-	})
-	for i, li := range list {
-		li.ordinal = i + 1
 	}
 	// parents: smallest enclosing loop
 	for _, li := range list {
@@ -143,6 +122,83 @@ func analyzeLoops(fn *ssa.Function) (map[*ssa.BasicBlock]*loopInfo, []*ssa.Basic
 				}
 			}
 		}
+	}
+	// loop ordinals follow the for/range statements of the source in textual order: each natural
+	// loop is matched to the innermost loop statement containing one of its own instructions
+	var stmts []ast.Node
+	var syn ast.Node
+	if fn.Syntax() != nil {
+		syn = fn.Syntax()
+	} else if fn.Origin() != nil {
+		syn = fn.Origin().Syntax()
+	}
+	if syn != nil {
+		ast.Inspect(syn, func(n ast.Node) bool {
+			switch n.(type) {
+			case *ast.ForStmt, *ast.RangeStmt:
+				stmts = append(stmts, n)
+			case *ast.FuncLit:
+				if n != syn {
+					return false
+				}
+			}
+			return true
+		})
+	}
+	stmtOf := map[*loopInfo]int{}
+	for _, li := range list {
+		stmtOf[li] = 1 << 30
+		own := map[*ssa.BasicBlock]bool{}
+		for b := range li.body {
+			own[b] = true
+		}
+		for _, lj := range list {
+			if lj.parent == li || (lj != li && li.body[lj.header] && len(lj.body) < len(li.body)) {
+				for b := range lj.body {
+					delete(own, b)
+				}
+			}
+		}
+		best := -1
+		for b := range own {
+			for _, in := range b.Instrs {
+				if _, isDbg := in.(*ssa.DebugRef); isDbg {
+					continue
+				}
+				p := in.Pos()
+				if !p.IsValid() || syn == nil || p < syn.Pos() || p > syn.End() {
+					continue
+				}
+				// innermost statement containing p
+				inner := -1
+				for k, sn := range stmts {
+					if sn.Pos() <= p && p <= sn.End() {
+						inner = k // later statements in pre-order that contain p are nested deeper
+					}
+				}
+				if inner >= 0 && (best == -1 || inner < best) {
+					// an own instruction may syntactically sit in a nested statement's header (e.g. its
+					// init expression); the outermost candidate among own instructions is this loop
+					best = inner
+				}
+			}
+		}
+		if best >= 0 {
+			stmtOf[li] = best
+		}
+		li.pos = token.Pos(stmtOf[li])
+	}
+	sort.Slice(list, func(i, j int) bool {
+		if stmtOf[list[i]] != stmtOf[list[j]] {
+			return stmtOf[list[i]] < stmtOf[list[j]]
+		}
+		if len(list[i].body) != len(list[j].body) {
+			return len(list[i].body) > len(list[j].body)
+		}
+		return list[i].header.Index < list[j].header.Index
+	})
+	for i, li := range list {
+		li.ordinal = i + 1
 	}
 	// reverse post-order ignoring back edges
 	visited := map[*ssa.BasicBlock]bool{}
@@ -608,6 +664,9 @@ func (x *Exec) unrollLoop(fr *frame, li *loopInfo, lc *LoopContract, inc []edge)
 		if iter == 0 {
 			pre := st.clone()
 			fr.preLoop[li] = &pre
+		}
+		if os.Getenv("GOVC_TRACE") != "" {
+			fmt.Fprintf(os.Stderr, "unroll %s pass %d reach=%s names=%v\n", loopName, iter, st.reach.S, st.names["color"])
 		}
 		outs := x.execBlockSeq(fr, li, st)
 		cur = nil
